@@ -45,6 +45,13 @@ fn deep_struct(depth: usize, out: &mut Vec<u8>) { for _ in 0..depth { out.push(0
 
 fn thrift_meta_input(r: &mut Rng) -> (Vec<u8>, String) {
     let mut o = Vec::new(); let mut last = 0i64; let mut tag = String::new();
+    if r.chance(1, 12) {
+        // a field id near i16::MAX followed by a short-form header whose delta overflows i16 (checked_add in read_field_begin),
+        // then the ordinary fields with explicit ids: only the overflow check makes this footer an error
+        let id = 32767 - r.below(14) as i64; o.push(0x01); o.extend(uleb(zz64(id))); last = id;
+        let d = (32768 - id + r.below(2) as i64).min(15) as u8; o.push((d << 4) | 0x01); tag += "deltaovf ";
+        if (id + d as i64) <= 32767 { last = id + d as i64 }
+    }
     let order: Vec<i64> = if r.chance(1, 6) { vec![3, 1, 4] } else { vec![1, 3, 4] };
     let mut ids: Vec<i64> = Vec::new();
     for id in order { if !r.chance(1, 12) { ids.push(id) } }
